@@ -2321,6 +2321,64 @@ def _(ctx):
         ctx.failures.append(("no outcome", {}, None))
 
 
+@spec("C18", "m_api_rule_two_places", "rule_tokinizer with one API rule '{NUMBER:n} foo' over the tokens  a foo + b foo  (MIR, values symbolic, the rule returns a token computed from the field it is handed): BOTH places that match the pattern are handed to the rule, each with its own number, and each is replaced by the token returned for it - the line ends as  f(a) + f(b)")
+def _(ctx):
+    ex = new_exec("real", feas_ms=2000)
+    lr = LineRunner(ex)
+    tfields, cfields = lr.tfields, struct_fields("src/config.rs", "SmartCalcConfig")
+    tk = SymV(ex, "tokinizerR3", "tokinizer::Tokinizer")
+    a, b = ex.fsym("a"), ex.fsym("b")
+    made = {}
+
+    def result(flds):
+        n = flds.d["n"] if isinstance(flds, MapC) and "n" in flds.d else None
+        while isinstance(n, RefV):
+            n = n.v
+        src = n.f[0] if isinstance(n, EnumV) and n.variant == "Number" else None
+        tok = EnumV("TokenType", "Money", [src if src is not None else ex.fsym("lost"), OpaqueV("usd")])
+        made[id(tok)] = src
+        return tok
+    rule = models.RuleObjV("places", z3.BoolVal(True), result)
+    foo = lambda at: tinfo(at, "foo", EnumV("TokenType", "Text", [StrV("foo")]))
+    p1 = [field_token("NUMBER", "n"), foo(0)]
+    rules = VecV([EnumV("RuleType", "API", [VecV([VecV(p1)]), RefV(rule)])])
+    line = [tinfo(0, "1", EnumV("TokenType", "Number", [a, EnumV("NumberType", "Decimal", [])])), foo(2),
+            tinfo(6, "+", EnumV("TokenType", "Operator", [IntV(ord("+"), 32, False)])),
+            tinfo(8, "2", EnumV("TokenType", "Number", [b, EnumV("NumberType", "Decimal", [])])), foo(10)]
+    st = {
+        (tk.path, tfields.index("token_infos")): VecV(line),
+        (tk.path, tfields.index("tokens")): VecV([]),
+        (tk.path, tfields.index("ui_tokens")): OpaqueV("ui_tokens"),
+        (tk.path, tfields.index("language")): StrV("en"),
+        (tk.path, tfields.index("config")): RefV(lr.cfgv),
+        (tk.path, tfields.index("session")): RefV(lr.sess),
+        (lr.cfgv.path, cfields.index("rule")): MapC({"en": rules}),
+    }
+    outs = list(ex.run(find_fn("rule_tokinizer"), [RefV(tk)], Path(stores=st)))
+    ctx.part.functions += ["tokinizer::rule_tokinizer::rule_tokinizer", "tokinizer::rule_tokinizer::find_match"]
+    ctx.paths += len(outs)
+    rp = ("k_replay_api_rule_places", [])
+    n = 0
+    for o in outs:
+        if o.kind == "panic":
+            ctx.reachable(ex, o.path, "rule_tokinizer can panic: " + o.msg, rp)
+            continue
+        ctx.part.queries += 1
+        n += 1
+        infos = o.path.stores[(tk.path, tfields.index("token_infos"))].items
+        status = lambda t: (o.path.stores.get((t.path, 4), t.f[4])).variant
+        active = [t for t in infos if status(t) == "Active"]
+        calls = [e for e in o.path.events if e[0] == "rule_call"]
+        def src_of(t):
+            tt = t.f[2].f[0]
+            return made.get(id(tt)) if isinstance(tt, EnumV) and tt.variant == "Money" else None
+        ok = len(active) == 3 and active[1] is line[2] and src_of(active[0]) is a and src_of(active[2]) is b
+        if not ok:
+            ctx.failures.append(("a line with two places that match the rule's pattern does not end as  f(a) + f(b)  (%d rule calls, %d active tokens)" % (len(calls), len(active)), {}, rp))
+    if not n:
+        ctx.failures.append(("no outcome", {}, None))
+
+
 @spec("C18", "m_api_rule_effect", "rule_tokinizer with one API rule '{NUMBER:n} foo' over the tokens  a foo b  (MIR, rule decision and values symbolic): a match calls the rule with its fields bound by name and replaces exactly the matched span by the returned token; a declining rule leaves the line as if the rule were absent; the pattern tokens are never modified")
 def _(ctx):
     rule_application(ctx, "C18")
@@ -3837,6 +3895,27 @@ def literal_totality(ctx):
                 n_ev, tok = literal_token(o, "number_regex_parser")
                 if n_ev == 1 and isinstance(tok, EnumV):
                     ctx.claim(ex, o.path, tok.f[0].t == z3.ToReal(val), "a base-%d literal of %d digits does not denote the integer written" % (radix, ln), rp)
+                    # every literal the reader accepts prints back: NumberItem::print on the token just read (same path
+                    # condition, so exactly the accepted values) hands the integer written to the {:#X} / {:#o} / {:#b} formatter
+                    if not getattr(ex, "_print_ready", False):
+                        ex.handlers.insert(0, (_re.compile(r"^core::fmt::rt::Argument::<'_>::new_\w+::<.*>$"), models.h_event_call))
+                        ex.handlers.insert(0, (_re.compile(r"^format_number$|^formatter::format_number$"), models.h_event_call))
+                        ex.handlers.insert(0, (_re.compile(r"^Arguments::<'_>::new(_const)?::<.*>$|^alloc::fmt::format$|^must_use::<.*>$|^core::fmt::rt::Argument::<'_>::none$|^<(alloc::string::)?String as ToString>::to_string$"), models.h_opaque))
+                        ex._print_ready = True
+                    pfn = models.item_impl(ex, "NumberItem", "print")
+                    me = ItemV("NumberItem", [tok.f[0], tok.f[1]])
+                    base_events = len(o.path.events)
+                    for po in ex.run(pfn, [RefV(me), RefV(SymV(ex, "pconfig", "config::SmartCalcConfig")), RefV(SymV(ex, "psession", "session::Session"))], o.path):
+                        ctx.paths += 1
+                        if po.kind == "panic":
+                            ctx.reachable(ex, po.path, "printing an accepted base-%d literal can panic: %s" % (radix, po.msg), rp)
+                            continue
+                        evs = [e for e in po.path.events[base_events:] if e[0].startswith("new_")]
+                        if len(evs) != 1 or not isinstance(evs[0][1][0], IntV):
+                            ctx.failures.append(("an accepted base-%d literal is not printed through one integer formatter (%s)" % (radix, [e[0] for e in evs]), {}, rp))
+                            continue
+                        ctx.part.queries += 1
+                        ctx.claim(ex, po.path, evs[0][1][0].t == val, "a base-%d literal of %d digits that the reader accepts does not print back as the integer written (the printed literal reads back as another number)" % (radix, ln), rp)
     if not n:
         ctx.failures.append(("literal totality: nothing explored", {}, None))
 
@@ -4067,6 +4146,210 @@ def _(ctx):
                 ctx.failures.append(("converting a quantity writes into the calculator's own unit descriptions (%s): later evaluations depend on earlier ones" % touched[:2], {}, ("k_replay_unit_history", [])))
     if not n:
         ctx.failures.append(("calculate_unit: nothing executed", {}, None))
+
+
+
+def unit_chain_spec(ctx):
+    """calculate_unit applies the declared programs in the declared order, each to the previous result"""
+    dfields = [n_ for n_, _t in struct_field_types("src/config.rs", "DynamicType")]
+    n = 0
+    size = 4
+    for a in range(1, size + 1):
+        for b in range(1, size + 1):
+            ex = new_exec("real")
+            cnt = [0]
+
+            def h_basic(ex_, name, args, path, depth, caller):
+                cnt[0] += 1
+                yield execmir_Outcome("return", path.event(("basic_execute", models.deref(args[0]))),
+                                      EnumV("Result", "Ok", [FloatV(z3.Real("converted%d" % cnt[0]), z3.BoolVal(False))]))
+
+            def h_loc(ex_, name, args, path, depth, caller):
+                code, number = models.deref(args[1]), models.deref(args[2])
+                yield execmir_Outcome("return", path.event(("program", code, number)), StrV(z3.String("text%d" % cnt[0])))
+            ex.handlers.insert(0, (_re.compile(r"^(smartcalc::)?SmartCalc::basic_execute::<.*>$"), h_basic))
+            ex.handlers.insert(0, (_re.compile(r"(^|::)localize_code$"), h_loc))
+            cfgv = SymV(ex, "config", "config::SmartCalcConfig")
+            units = {i: unit_object("unit%d" % i, i) for i in range(1, size + 1)}
+            x = ex.fsym("x")
+            fn = find_fn("calculate_unit")
+            rp = ("k_replay_unit_chain", [(a, "u8"), (b, "u8")])
+            rp_raw = ("k_replay_unit_chain", [[a], [b]])
+            step = 1 if a < b else -1
+            want_codes = [units[i].f[dfields.index("upgrade_code" if a < b else "downgrade_code")] for i in range(a, b, step)]
+            for o in ex.run(fn, [RefV(cfgv), x, units[a], units[b], RefV(MapC(dict(units)))], Path()):
+                ctx.paths += 1
+                ctx.part.queries += 1
+                n += 1
+                if o.kind == "panic":
+                    ctx.reachable(ex, o.path, "calculate_unit can panic: " + o.msg, rp)
+                    continue
+                if not ex.feasible(o.path):
+                    continue
+                progs = [e for e in o.path.events if e[0] == "program"]
+                val = o.value
+                if not (isinstance(val, EnumV) and val.variant == "Some"):
+                    ctx.failures.append(("calculate_unit declines the conversion from index %d to %d of a complete chain" % (a, b), {}, rp_raw))
+                    continue
+                got = val.f[0]
+                ok = len(progs) == len(want_codes)
+                prev = x
+                for k, e in enumerate(progs if ok else []):
+                    code, number = e[1], e[2]
+                    same_code = isinstance(code, StrV) and not code.is_concrete() and code.term().eq(want_codes[k].term())
+                    same_in = isinstance(number, FloatV) and number.t.eq(prev.t)
+                    if not (same_code and same_in):
+                        ok = False
+                        break
+                    prev = FloatV(z3.Real("converted%d" % (k + 1)))
+                if ok:
+                    ok = isinstance(got, FloatV) and got.t.eq(prev.t)
+                if not ok:
+                    ctx.failures.append(("converting from index %d to index %d does not apply the declared %s programs of the units in between, in chain order, each to the previous result (%d programs run)" % (a, b, "upgrade" if a < b else "downgrade", len(progs)), {}, rp_raw))
+    ctx.part.functions.append("compiler::dynamic_type::DynamicTypeItem::calculate_unit")
+    if not n:
+        ctx.failures.append(("calculate_unit: nothing executed", {}, None))
+
+
+@spec("C12", "m_unit_program_text", "DynamicTypeItem::localize_code (MIR; the amount symbolic, string replacement observed): the text put in place of {value} in a conversion program is the rendering of the amount itself - of the double, or of an integer equal to it - for every finite amount, also beyond the 64-bit integers; and the program text is otherwise only rewritten from '.' to the configured decimal separator")
+def _(ctx):
+    ex = new_exec("real")
+    cnt = [0]
+
+    class NumTextV(StrV):
+        def __init__(self, kind, term):
+            cnt[0] += 1
+            StrV.__init__(self, z3.String("numtext%d" % cnt[0]))
+            self.kind, self.num = kind, term
+
+    def h_num_to_string(ex_, name, args, path, depth, caller):
+        v = models.deref(args[0])
+        if isinstance(v, FloatV):
+            yield execmir_Outcome("return", path, NumTextV("f64", v.t))
+        elif isinstance(v, IntV):
+            yield execmir_Outcome("return", path, NumTextV("int", v.t))
+        else:
+            raise Unsupported("to_string of %r" % (v,))
+
+    def h_replace(ex_, name, args, path, depth, caller):
+        src, pat, to = models.deref(args[0]), models.deref(args[1]), models.deref(args[2])
+        cnt[0] += 1
+        yield execmir_Outcome("return", path.event(("replace", src, pat, to)), StrV(z3.String("replaced%d" % cnt[0])))
+    ex.handlers.insert(0, (_re.compile(r"^<(f64|i64|u64|i32|u32|i128|u128|isize|usize) as ToString>::to_string$"), h_num_to_string))
+    ex.handlers.insert(0, (_re.compile(r"^(alloc|core)::str::<impl str>::replace::<.*>$"), h_replace))
+    cfgv = SymV(ex, "config", "config::SmartCalcConfig")
+    cfields = struct_fields("src/config.rs", "SmartCalcConfig")
+    code = StrV(z3.String("code"))
+    x = ex.fsym("amount")
+    ex.assumptions.append(z3.And(x.t >= -(10 ** 30), x.t <= 10 ** 30))
+    fn = [f for nm, f in ex.fns.items() if _re.search(r"(^|::)localize_code$", nm)]
+    if len(fn) != 1:
+        raise Unsupported("localize_code not found (the conversion programs are localised elsewhere)")
+    ctx.part.functions.append("compiler::dynamic_type::DynamicTypeItem::localize_code")
+    rp = ("m_replay_unit_amount", [(x.t, "f64")])
+    n = 0
+    for o in ex.run(fn[0], [RefV(cfgv), RefV(code), x], Path()):
+        ctx.paths += 1
+        if o.kind == "panic":
+            ctx.reachable(ex, o.path, "localize_code can panic: " + o.msg, rp)
+            continue
+        if not ex.feasible(o.path):
+            continue
+        n += 1
+        reps = [e for e in o.path.events if e[0] == "replace"]
+        vals = [e for e in reps if isinstance(e[2], StrV) and e[2].is_concrete() and e[2].t == "{value}"]
+        if len(vals) != 1 or not isinstance(vals[0][3], NumTextV):
+            ctx.reachable(ex, o.path, "the conversion program is evaluated without the amount's own rendering in place of {value}", rp)
+            continue
+        t = vals[0][3]
+        ctx.part.queries += 1
+        # an integer rendering is allowed to differ by what the double's own rounding can hide (relative 1e-9 is far above
+        # that and far below any saturation or truncation): the witness of a failure is then a clearly different number
+        num = t.num if t.kind == "f64" else z3.ToReal(t.num)
+        ax = z3.If(x.t >= 0, x.t, -x.t)
+        tol = ax * z3.Q(1, 10 ** 9)
+        ctx.claim(ex, o.path, z3.And(num - x.t <= tol, x.t - num <= tol), "the number written in place of {value} in a conversion program is not the amount being converted", rp)
+    if not n:
+        ctx.failures.append(("localize_code: nothing decided", {}, None))
+
+
+def token_location_spec(ctx):
+    """Tokinizer::add_token_location with k existing tokens at symbolic places"""
+    n = 0
+    for k in (0, 1, 2, 3):
+        ex = new_exec("real")
+        tfields = struct_fields("src/tokinizer/mod.rs", "Tokinizer")
+        tk = SymV(ex, "tokinizerL", "tokinizer::Tokinizer")
+        existing, spans = [], []
+        for i in range(k):
+            s_, e_ = z3.Int("s%d" % i), z3.Int("e%d" % i)
+            ex.domain.append(z3.And(s_ >= 0, s_ < e_, e_ <= 1000))
+            ex.inputs["s%d" % i], ex.inputs["e%d" % i] = s_, e_
+            spans.append((s_, e_))
+            existing.append(StructV("TokenInfo", [IntV(s_, 64, False), IntV(e_, 64, False), EnumV("Option", "None", []), StrV(""), EnumV("TokenInfoStatus", "Active", [])]))
+        for i in range(k):
+            for j in range(i):
+                ex.domain.append(z3.Or(spans[i][1] <= spans[j][0], spans[j][1] <= spans[i][0]))      # the tokens already there do not overlap
+        start, end = z3.Int("start"), z3.Int("end")
+        ex.domain.append(z3.And(start >= 0, start < end, end <= 1000))
+        ex.inputs["start"], ex.inputs["end"] = start, end
+        fn = [f for nm, f in ex.fns.items() if _re.search(r"tokinizer::<impl at src/tokinizer/mod\.rs[^>]*>::add_token_location$", nm)]
+        if len(fn) != 1:
+            raise Unsupported("add_token_location not found")
+        tok = EnumV("Option", "Some", [EnumV("TokenType", "Operator", [IntV(ord("-"), 32, False)])])
+        st = {(tk.path, tfields.index("token_infos")): VecV(existing)}
+        rp = ("m_replay_token_location", [(k, "u8")] + [(x, "u16") for sp in spans for x in sp] + [(start, "u16"), (end, "u16")])
+        partial = z3.Or([z3.Or(z3.And(s_ <= start, start < e_), z3.And(s_ < end, end <= e_)) for s_, e_ in spans]) if spans else z3.BoolVal(False)
+        disjoint = z3.And([z3.Or(end <= s_, e_ <= start) for s_, e_ in spans]) if spans else z3.BoolVal(True)
+        for o in ex.run(fn[0], [RefV(tk), IntV(start, 64, False), IntV(end, 64, False), tok, StrV("-")], Path(stores=st)):
+            ctx.paths += 1
+            if o.kind == "panic":
+                ctx.reachable(ex, o.path, "add_token_location can panic: " + o.msg, rp)
+                continue
+            n += 1
+            ctx.part.queries += 2
+            infos = o.path.stores[(tk.path, tfields.index("token_infos"))].items
+            if not z3.is_bool(o.value):
+                raise Unsupported("add_token_location result %r" % (o.value,))
+            added = len(infos) - k
+            if added not in (0, 1):
+                ctx.failures.append(("add_token_location changes the token list by %d entries" % added, {}, None))
+                continue
+            took = z3.BoolVal(added == 1)
+            ctx.claim(ex, o.path, o.value == took, "add_token_location's answer does not say whether the token was recorded", rp)
+            ctx.claim(ex, o.path, z3.Implies(partial, z3.Not(took)), "a token whose first or last character lies inside a token already recognised is recorded (two tokens claim the same characters)", rp)
+            ctx.claim(ex, o.path, z3.Implies(disjoint, took), "a token on characters nobody claimed is refused", rp)
+            if added == 1:
+                t = infos[-1]
+                while isinstance(t, RefV):
+                    t = t.v
+                ok = isinstance(t, StructV) and isinstance(t.f[0], IntV) and isinstance(t.f[1], IntV)
+                if not ok:
+                    raise Unsupported("recorded token %r" % (t,))
+                ctx.claim(ex, o.path, z3.And(t.f[0].t == start, t.f[1].t == end), "the recorded token does not carry the span it was given", rp)
+    ctx.part.functions.append("tokinizer::Tokinizer::add_token_location")
+    if not n:
+        ctx.failures.append(("add_token_location: nothing executed", {}, None))
+
+
+@spec("C13", "m_token_location", "Tokinizer::add_token_location (MIR; up to three non-overlapping tokens already recognised at symbolic places, the new span symbolic within 0..1000): a span whose first or last character lies inside a recognised token is refused, a span on free characters is recorded with exactly its bounds, and the answer says which - so the decimal pattern cannot swallow the sign glued to a 0x / 0o / 0b literal ('0x20-0x10'), and based literals take part in arithmetic like any other number")
+def _(ctx):
+    token_location_spec(ctx)
+
+
+@spec("C02", "m_token_location", "add_token_location registered for C02 as well: the value does not depend on spacing because a later pattern cannot claim characters of an earlier token")
+def _(ctx):
+    token_location_spec(ctx)
+
+
+@spec("C18", "m_unit_chain_order", "DynamicTypeItem::calculate_unit over a user-defined family of four units (MIR; programs are opaque texts, the program evaluation is an uninterpreted function), every ordered pair of source and target index: the programs run are the upgrade programs of source, source+1 .. target-1 resp. the downgrade programs of source, source-1 .. target+1 - in that order, each applied to the previous result, the first to the amount - and the result is the last value: a family converts along its declared chain also when its steps do not commute")
+def _(ctx):
+    unit_chain_spec(ctx)
+
+
+@spec("C12", "m_unit_chain_order", "calculate_unit's walk registered for C12 as well: transitivity (A to B to C equals A to C) follows from the walk composing the same programs in the same order")
+def _(ctx):
+    unit_chain_spec(ctx)
 
 
 
@@ -4368,3 +4651,205 @@ def _(ctx):
             ctx.claim(ex, o.path, e[2] == d.days, "the %s shown by DateItem::print is read from a date other than the item's calendar date" % e[1], rp)
     if not n and not ctx.failures:
         ctx.failures.append(("DateItem::print: no path reads the date", {}, None))
+
+
+
+# ============================================================================ C14 / C09: the printed date-time is the zoned instant
+def datetime_print_spec(ctx):
+    import re as _re7
+    ex = new_exec("real")
+    cnt = [0]
+
+    def local_of(d):
+        """(local day number, local second of the day) of a value read by Datelike / Timelike"""
+        if isinstance(d, models.ZonedV):
+            tot = d.utc.total() + d.off
+            return tot / 86400, tot % 86400
+        if isinstance(d, DateTimeV):
+            return d.days, d.secs
+        if hasattr(d, "days"):
+            return d.days, None
+        raise Unsupported("calendar reading on %r" % (d,))
+
+    def h_datelike(ex_, name, args, path, depth, caller):
+        days, _s = local_of(models.deref(args[0]))
+        cnt[0] += 1
+        part = name.split("::")[-1]
+        t = z3.Int("%s%d" % (part, cnt[0]))
+        yield execmir_Outcome("return", path.event(("datelike", part, days)), IntV(t, 32, part == "year"))
+
+    def h_timelike(ex_, name, args, path, depth, caller):
+        _d, secs = local_of(models.deref(args[0]))
+        if secs is None:
+            raise Unsupported("Timelike on a date")
+        part = name.split("::")[-1]
+        val = {"hour": secs / 3600, "minute": (secs / 60) % 60, "second": secs % 60}[part]
+        yield execmir_Outcome("return", path.event(("timelike", part, val)), IntV(val, 32, False))
+
+    def h_text(ex_, name, args, path, depth, caller):
+        cnt[0] += 1
+        yield execmir_Outcome("return", path, StrV(z3.String("text%d" % cnt[0])))
+
+    def h_month_info(ex_, name, args, path, depth, caller):
+        cnt[0] += 1
+        yield execmir_Outcome("return", path, EnumV("Option", "Some", [SymV(ex_, "month_info%d" % cnt[0], "constants::MonthInfo")]))
+
+    def h_date_naive(ex_, name, args, path, depth, caller):
+        z = models.deref(args[0])
+        days, _s = local_of(z)
+        yield execmir_Outcome("return", path, DateV(days))
+    add = lambda rx, fn_: ex.handlers.insert(0, (_re7.compile(rx), fn_))
+    add(r"^<(Date<.*>|NaiveDate|(chrono::)?NaiveDate|(chrono::)?NaiveDateTime|DateTime<.*>) as Datelike>::(year|month|day)$", h_datelike)
+    add(r"^<((chrono::)?NaiveDateTime|DateTime<.*>|(chrono::)?NaiveTime) as Timelike>::(hour|minute|second)$", h_timelike)
+    add(r"^DateTime::<.*>::date_naive$", h_date_naive)
+    add(r"^DateTime::<Utc>::date$", models.h_identity0)
+    add(r"^(alloc|core)::str::<impl str>::replace::<.*>$|^<(u32|i32|i64|u8) as ToString>::to_string$|^(formatter::)?left_padding$|^(formatter::)?uppercase_first_letter$|^<DateTime<.*> as ToString>::to_string$|^<(chrono::)?NaiveDateTime as ToString>::to_string$|^alloc::fmt::format$", h_text)
+    add(r"^(formatter::)?get_month_info$", h_month_info)
+    add(r"^Arguments::<'_>::new(_const)?::<.*>$|^must_use::<.*>$|^core::fmt::rt::Argument::<'_>::\w+(::<.*>)?$", models.h_opaque)
+    me = SymV(ex, "self", "payload")
+    cfgv = SymV(ex, "config", "config::SmartCalcConfig")
+    sess = SymV(ex, "session", "session::Session")
+    fn = models.item_impl(ex, "DateTimeItem", "print")
+    ctx.part.functions.append("compiler::date_time::print")
+    t = me.field(0, "chrono::NaiveDateTime")
+    off = me.field(1, "types::TimeOffset").field(1, "i32").t
+    ex.assumptions.append(z3.And(off >= -12 * 60, off <= 14 * 60))
+    tot = t.total() + off * 60
+    ldays, lsecs = tot / 86400, tot % 86400
+    want = {"hour": lsecs / 3600, "minute": (lsecs / 60) % 60, "second": lsecs % 60}
+    rp = ("m_replay_datetime_print", [(t.secs, "u32"), (off, "i32")])
+    n = 0
+    for o in ex.run(fn, [RefV(ItemV("DateTimeItem", me)), RefV(cfgv), RefV(sess)], Path()):
+        ctx.paths += 1
+        if o.kind == "panic":
+            ctx.reachable(ex, o.path, "DateTimeItem::print can panic: " + o.msg, rp)
+            continue
+        evs = [e for e in o.path.events if e[0] in ("datelike", "timelike")]
+        if not evs:
+            continue           # no format table for the language
+        own = [e for e in evs if not (z3.is_expr(e[2]) and "now" in e[2].sexpr())]
+        n += 1
+        for e in own:
+            ctx.part.queries += 1
+            if e[0] == "datelike":
+                ctx.claim(ex, o.path, e[2] == ldays, "the %s read by DateTimeItem::print (shown, or compared with the running year to choose the layout) is not that of the instant moved into the item's zone" % e[1], rp)
+            else:
+                ctx.claim(ex, o.path, e[2] == want[e[1]], "the %s shown by DateTimeItem::print is not that of the instant moved into the item's zone" % e[1], rp)
+    if not n and not ctx.failures:
+        ctx.failures.append(("DateTimeItem::print: no path reads the instant", {}, None))
+
+
+@spec("C14", "m_datetime_print", "DateTimeItem::print (MIR; month names, padding, format strings and format! are observed, not executed): every year / month / day / hour / minute / second that print reads - the ones shown and the year it compares with the running year to choose between the layout with and without a year - is that of the instant moved into the item's zone, for every instant and every zone offset within -12 h..+14 h")
+def _(ctx):
+    datetime_print_spec(ctx)
+
+
+@spec("C09", "m_datetime_print", "DateTimeItem::print registered for C09 as well ('<date> at <time>' and date-time results are printed by it)")
+def _(ctx):
+    datetime_print_spec(ctx)
+
+
+
+# ============================================================================ the configuration setters store what they are given (C07 / C08)
+def setters_spec(ctx):
+    cfields = struct_fields("src/config.rs", "SmartCalcConfig")
+    nc = [n_ for n_, _t in struct_field_types("src/config.rs", "NumberConfig")]
+    mc = [n_ for n_, _t in struct_field_types("src/config.rs", "MoneyConfig")]
+    cases = [
+        ("set_decimal_seperator", [("decimal_seperator", None, "str")]),
+        ("set_thousand_separator", [("thousand_separator", None, "str")]),
+        ("set_number_configuration", [("number_config", nc.index("decimal_digits"), "u8"), ("number_config", nc.index("remove_fract_if_zero"), "bool"), ("number_config", nc.index("use_fract_rounding"), "bool")]),
+        ("set_percentage_configuration", [("percentage_config", nc.index("decimal_digits"), "u8"), ("percentage_config", nc.index("remove_fract_if_zero"), "bool"), ("percentage_config", nc.index("use_fract_rounding"), "bool")]),
+        ("set_money_configuration", [("money_config", mc.index("remove_fract_if_zero"), "bool"), ("money_config", mc.index("use_fract_rounding"), "bool")]),
+    ]
+    n = 0
+    for si, (setter, targets) in enumerate(cases):
+        ex = new_exec("real")
+        models.install_field_writes(ex)
+        cfgv = SymV(ex, "config", "config::SmartCalcConfig")
+        calc = StructV("SmartCalc", [cfgv])
+        fn = [f for nm, f in ex.fns.items() if _re.search(r"smartcalc::<impl at src/smartcalc\.rs[^>]*>::%s$" % setter, nm)]
+        if len(fn) != 1:
+            raise Unsupported("%s not found" % setter)
+        ctx.part.functions.append("smartcalc::SmartCalc::" + setter)
+        args, vals = [], []
+        for i, (_f, _i, ty) in enumerate(targets):
+            if ty == "str":
+                t = z3.String("arg%d" % i)
+                args.append(StrV(t))
+            elif ty == "u8":
+                t = z3.Int("arg%d" % i)
+                ex.domain.append(z3.And(t >= 0, t <= 255))
+                args.append(IntV(t, 8, False))
+            else:
+                t = z3.Bool("arg%d" % i)
+                args.append(t)
+            ex.inputs["arg%d" % i] = t
+            vals.append(t)
+        rp = ("k_replay_setters", [(si, "u8")])
+        for o in ex.run(fn[0], [RefV(calc)] + args, Path()):
+            ctx.paths += 1
+            n += 1
+            if o.kind == "panic":
+                ctx.reachable(ex, o.path, "%s can panic: %s" % (setter, o.msg), rp)
+                continue
+            for (fld, sub, ty), want in zip(targets, vals):
+                if sub is None:
+                    got = o.path.stores.get((cfgv.path, cfields.index(fld)))
+                else:
+                    owner = cfgv.field(cfields.index(fld), "config::" + ("MoneyConfig" if fld == "money_config" else "NumberConfig"))
+                    got = o.path.stores.get((owner.path, sub))
+                if got is None:
+                    ctx.reachable(ex, o.path, "%s leaves %s as it was for some argument (the setting is not stored)" % (setter, fld), rp)
+                    continue
+                gt = got.term() if isinstance(got, StrV) else (got.t if isinstance(got, IntV) else got)
+                ctx.claim(ex, o.path, gt == want, "%s does not store its argument in %s" % (setter, fld), rp)
+    if not n:
+        ctx.failures.append(("no setter executed", {}, None))
+
+
+@spec("C07", "m_format_setters", "set_decimal_seperator, set_thousand_separator, set_number_configuration, set_percentage_configuration, set_money_configuration (MIR, arguments symbolic): each stores exactly its arguments in the configuration fields the printers read, for every argument and whatever the current settings are - the setters can be called in any order")
+def _(ctx):
+    setters_spec(ctx)
+
+
+@spec("C08", "m_format_setters", "the separator setters registered for C08 as well: a configuration is reachable by calling the two setters in either order")
+def _(ctx):
+    setters_spec(ctx)
+
+
+@spec("C04", "m_set_language", "Session::set_language (MIR): stores the language and writes nothing else - the variables of a re-used session survive a change of language")
+def _(ctx):
+    ex = new_exec("real")
+    models.install_field_writes(ex)
+    sfields = struct_fields("src/session.rs", "Session")
+    me = SymV(ex, "session", "session::Session")
+    lang = z3.String("language")
+    fn = [f for nm, f in ex.fns.items() if _re.search(r"session::<impl at src/session\.rs[^>]*>::set_language$", nm)]
+    if len(fn) != 1:
+        raise Unsupported("set_language not found")
+    ctx.part.functions.append("session::Session::set_language")
+    n = 0
+    for o in ex.run(fn[0], [RefV(me), StrV(lang)], Path()):
+        ctx.paths += 1
+        ctx.part.queries += 1
+        n += 1
+        if o.kind == "panic":
+            ctx.reachable(ex, o.path, "set_language can panic: " + o.msg, ("k_replay_set_language", []))
+            continue
+        written = {k[1] for k in o.path.stores if k[0] == me.path}
+        others = sorted(sfields[i] for i in written if isinstance(i, int) and sfields[i] != "language")
+        touched = [e for e in o.path.events if e[0] == "store" and str(e[1]).startswith(me.path) and e[1] != me.path]
+        if others or touched:
+            ctx.failures.append(("set_language writes more than the language: %s" % (others or [str(e[1]) for e in touched][:3]), {}, ("k_replay_set_language", [])))
+            continue
+        got = o.path.stores.get((me.path, sfields.index("language")))
+        if not (isinstance(got, StrV) and got.term().eq(lang)):
+            ctx.failures.append(("set_language does not store the language it is given", {}, ("k_replay_set_language", [])))
+    if not n:
+        ctx.failures.append(("set_language: nothing executed", {}, None))
+
+
+@spec("C14", "m_small_date", "small_date registered for C14 as well: '<date> as unix' is counted from the calendar date that was written (years 1..9999, no two-digit year expansion)")
+def _(ctx):
+    _reuse("C09", "m_small_date")(ctx)
